@@ -130,5 +130,5 @@ func fieldAccesses(fn *ssa.Function, typ, field string) []ssa.Instruction {
 func structName(t interface{ String() string }) string {
 	s := t.String()
 	s = strings.TrimPrefix(s, "*")
-	return shortName(s)
+	return canon(shortName(s))
 }
